@@ -274,11 +274,14 @@ def run(ctx, canary=False):
                 ctx.violation("%s after %d iterations: optimality gap bound %r is %.3g of the bound at the uniform start (loss %r, uniform %r): "
                               "the returned model is not optimal" % (solver, iters, res["gap"], rel, L, L0), info, {"kind": "gap", "solver": solver})
     ctx.extra["worst_relative_excess"] = worst
-    res = T.validate(ctx, "est/SolverTrace.tla", E.SOLVER_TRACE_CFG, traces, name="SolverTrace", chunk=200, timeout=7200) if traces else []
-    for t, (ok, reached, ln) in zip(traces, res):
+    res = T.validate2(ctx, "est/SolverTrace.tla", E.SOLVER_TRACE_CFG, E.SOLVER_TRACE_CFG_LENIENT, traces, name="SolverTrace", chunk=200, timeout=7200) if traces else []
+    for t, (ok, okl, reached, reachedl, ln) in zip(traces, res):
         if ok:
             ctx.traces_validated += 1
+        elif okl:
+            ctx.deviation("the optimum is reached, but the line search is not a behaviour of Solvers.tla: " + T.describe_reject(t, reached), t["info"])
         else:
+            reached = reachedl
             ctx.violation("solver event stream rejected by SolverTrace.tla: " + T.describe_reject(t, reached),
                           {"trace_info": t["info"], "events_near": t["events"][max(0, reached - 3):reached + 1]}, {"kind": "trace"})
     inst, lstar = pick[0]
